@@ -24,6 +24,11 @@ import (
 	"strings"
 )
 
+var yieldPkgs = map[string]bool{
+	"tkestack.io/kvass/pkg/discovery": true,
+	"tkestack.io/kvass/pkg/explore":   true,
+}
+
 type edit struct {
 	off  int
 	end  int // replace [off,end) by text
@@ -75,6 +80,7 @@ func main() {
 		Rewritten int      `json:"rewritten"`
 		Skipped   []string `json:"skipped"`
 		Sites     []string `json:"sites"`
+		Yields    []string `json:"yield_sites"`
 	}{}
 	pkgs := make([]string, 0, len(dirs))
 	for p := range dirs {
@@ -114,6 +120,31 @@ func main() {
 				return true
 			})
 			hasImport := false
+			// cooperative yield before every x.Lock() statement in the packages
+			// whose lock-granularity interleavings the simulator explores
+			if yieldPkgs[pkg] {
+				ast.Inspect(f, func(nd ast.Node) bool {
+					es, ok := nd.(*ast.ExprStmt)
+					if !ok {
+						return true
+					}
+					call, ok := es.X.(*ast.CallExpr)
+					if !ok || len(call.Args) != 0 {
+						return true
+					}
+					sel, ok := call.Fun.(*ast.SelectorExpr)
+					if !ok || sel.Sel.Name != "Lock" {
+						return true
+					}
+					pos := fset.Position(es.Pos())
+					site := fmt.Sprintf("%s:%d", strings.TrimPrefix(pos.Filename, *repo+"/"), pos.Line)
+					o := fset.Position(es.Pos()).Offset
+					edits = append(edits, edit{o, o, fmt.Sprintf("verifhook.Yield(%q); ", site)})
+					report.Yields = append(report.Yields, site)
+					hasImport = true
+					return true
+				})
+			}
 			ast.Inspect(f, func(nd ast.Node) bool {
 				rs, ok := nd.(*ast.RangeStmt)
 				if !ok {
